@@ -135,7 +135,11 @@ class QvmEval(EvaluationContext):
 
     def eval_lvalue(self, lvalue):
         frame = self.cpu.cur_frame
-        routine = self.find_routine_func(frame.code_start)
+        if frame is None:
+            # no frame left once the program has ended
+            routine = self.main_routine
+        else:
+            routine = self.find_routine_func(frame.code_start)
         if (lvalue.base_var in self.global_consts or lvalue.base_var in routine.local_consts) and \
            (lvalue.array_indices or lvalue.dotted_vars):
             raise ValueError(
